@@ -31,6 +31,7 @@ CANARIES = {
     "C03": [
         ("extra-required", "stix2/v21/sdo.py", "bool-flip", ["Indicator", "True -> False", "default=lambda: False"], "C03.table"),
         ("vocabulary-entry-lost", "stix2/v21/vocab.py", "drop-list-element", ["OPINION_AGREE", "OPINION_"], "C03.table"),
+        ("empty-string-means-absent", "stix2/base.py", "text", ["if prop_val not in (None, []):", "if prop_val not in (None, [], ''):"], "C03.absent-values"),
     ],
     "C04": [
         ("hard-coded-true", "stix2/properties.py", "kw-true", ["ListProperty.clean", "allow_custom=True", "self.contained("], "C04.forward"),
@@ -52,6 +53,8 @@ CANARIES = {
         ("path-prefix", "stix2/markings/granular_markings.py", "drop-bool-operand", ["get_markings", "inherited", "drop operand 1", "startswith"], "C07.query-siblings"),
         ("normal-form-skipped", "stix2/markings/granular_markings.py", "drop-self-assign-call", ["add_markings", "compress_markings"], "C07.normal-form"),
         ("in-place-edit", "stix2/markings/granular_markings.py", "negate-if", ["set_markings"], "C07.new-version"),
+        ("lang-not-forwarded", "stix2/markings/__init__.py", "text", ["granular_markings.set_markings(obj, marking, selectors, marking_ref, lang)", "granular_markings.set_markings(obj, marking, selectors, marking_ref)"], "C07.forward"),
+        ("substring-selector-match", "stix2/markings/granular_markings.py", "text", ["if s in granular_marking.get('selectors', []):", "if s in granular_marking.get('selectors', [])[0]:"], "C07.whole-selectors"),
     ],
     "C08": [
         ("validate-skipped", "stix2/markings/granular_markings.py", "delete-call-stmt", ["add_markings", "utils.validate"], "C08.every-function"),
@@ -63,6 +66,8 @@ CANARIES = {
     "C09": [
         ("order-entry-lost", "stix2/equivalence/pattern/compare/comparison.py", "drop-list-element", ["'LIKE'"], "C09.producers-handlers"),
         ("comparator-not-mirror", "stix2/equivalence/pattern/compare/comparison.py", "negate-if", ["object_path_cmp", "path1.object_type_name < path2.object_type_name"], "C09.comparator-mirror"),
+        ("copy-loses-not", "stix2/equivalence/pattern/transform/comparison.py", "text", ["ast.operator, new_object_path, ast.rhs, ast.negated,", "ast.operator, new_object_path, ast.rhs,"], "C09.copy-complete"),
+        ("set-semantics-containment", "stix2/equivalence/pattern/transform/observation.py", "text", ["                    del container[i]\n", "                    pass\n"], "C09.distinct-bindings"),
     ],
     "C10": [
         ("negation-constant", "stix2/pattern_visitor.py", "last-arg-false", ["visitPropTestSet", "InComparisonExpression"], "C10.not-aware"),
